@@ -387,7 +387,7 @@ func (r *rewriter) file(f *ast.File, path string) []byte {
 				switch r.pkgNameOf(id) {
 				case "sync":
 					switch n.Sel.Name {
-					case "Mutex", "RWMutex", "WaitGroup", "Once", "Locker":
+					case "Mutex", "RWMutex", "WaitGroup", "Once", "Locker", "Cond", "NewCond":
 						r.bump("sync")
 						c.Replace(sel("vsched", n.Sel.Name))
 					case "Map", "Pool":
